@@ -25,8 +25,8 @@ public:
     bool noRelease = false;      // offer release_table = NULL
     std::function<void(const Event &)> onEvent;
 
-    bool load(const std::string &path) {
-        std::string d = slurp(path);
+    bool load(const std::string &path) { return load_mem(slurp(path)); }
+    bool load_mem(const std::string &d) {
         if (d.size() < 12) return false;
         const uint8_t *p = (const uint8_t *)d.data();
         unsigned n = be16(p + 4);
